@@ -14,6 +14,8 @@ def run(tier):
     d0 = vlib.run_tlc("TileAddr", "MC_TileAddr.cfg", timeout=600, want_vecs=False)
     if not d0.ok:
         raise Broken("design model MC_TileAddr fails: %s\n%s" % (d0.violated or d0.error, d0.trace_text[:2000]))
+    # unbounded: the same rules for EVERY matrix size, origin, tile and interior point (TileAddrInt.tla, Apalache, length 0)
+    apalache = vlib.run_apalache("TileAddrInt", "Init", "Inv", 0)
     drv = vlib.build_harness()
     p = vlib.run([drv, "tms-addr-trace", "-seed", str(vlib.seed()), "-samples", "6" if tier == "quick" else "250"], timeout=1800)
     if p.returncode != 0:
@@ -35,6 +37,8 @@ def run(tier):
     vlib.write_evidence(PROP, tier, "model_checking", {
         "states": d0.distinct + tstates, "transitions": d0.generated + tstates, "traces_validated_against_impl": nrec,
         "samples": [json.loads(lines[0]), json.loads(lines[-1])], "sets_seen": sets, "exhaustive": False,
+        "apalache": {"module": "TileAddrInt.tla", "obligation": "Init => Consistent /\\ OutsideNoTile /\\ BBoxFromCorners (length 0)",
+                     "bounds": "none: every W, H >= 1, every integer origin, both corner conventions, every tile and interior point", "wall_s": apalache},
         "rule": "every built-in set (+ the repository's bottom-left/lat-lon test document + synthetic bottom-left and top-left grids) x every matrix without "
                 "variable widths x 4 corner tiles, 4 border tiles and sampled interior tiles x 5 interior quarter-fraction points; 6 outside points per matrix; "
                 "corner position compared with origin + index * tile size in x,y order (16 ulp + 1e-8 tolerance: the API rounds to 9 decimals)",
